@@ -238,6 +238,11 @@ func sortMsiFiles(files []*comdoc.DirEnt) {
 		if b.NameLength < n {
 			n = b.NameLength
 		}
+		// the length counts bytes, the name is held as 16-bit units
+		n /= 2
+		if int(n) > len(a.NameRunes) {
+			n = uint16(len(a.NameRunes))
+		}
 		// do a comparison of the utf16 in its original LE form
 		for k := uint16(0); k < n; k++ {
 			x, y := a.NameRunes[k], b.NameRunes[k]
